@@ -26,6 +26,8 @@ pub enum Extra {
 	SubNotifUnknown,
 	/// an array packing the answers to wire messages 0 and 1
 	PackedPair,
+	/// the server reuses subscription ids: every subscribe call is answered with the id "SX"
+	ConstSubscriptionId,
 	/// the reply to the batch (op 1) arrives in ONE array behind notifications for the unread subscription (op 0) that
 	/// overflow its buffer
 	NotifsThenBatchInOneArray,
@@ -58,6 +60,7 @@ impl MatchScenario {
 		let mut env = Vec::new();
 		for (k, a) in self.answers.iter().enumerate() {
 			match a {
+				Ans::Ok if self.extras.contains(&Extra::ConstSubscriptionId) => env.push(EnvEvent::Answer { msg: self.warmup + k, kind: AnswerKind::OkConstSub }),
 				Ans::Ok => env.push(EnvEvent::Answer { msg: self.warmup + k, kind: AnswerKind::Ok }),
 				Ans::Err => env.push(EnvEvent::Answer { msg: self.warmup + k, kind: AnswerKind::Err }),
 				Ans::Omit => {}
@@ -78,7 +81,7 @@ impl MatchScenario {
 				Extra::UnknownId => env.push(EnvEvent::Raw { after: 1, text: format!(r#"{{"jsonrpc":"2.0","id":{},"result":"stray"}}"#, idtxt(77)) }),
 				Extra::MethodNotif => env.push(EnvEvent::Raw { after: 0, text: r#"{"jsonrpc":"2.0","method":"server_says","params":["stray-notif"]}"#.into() }),
 				Extra::SubNotifUnknown => env.push(EnvEvent::Raw { after: 0, text: r#"{"jsonrpc":"2.0","method":"n","params":{"subscription":"nobody","result":"stray-sub"}}"#.into() }),
-				Extra::NotifsThenBatchInOneArray => {}
+				Extra::NotifsThenBatchInOneArray | Extra::ConstSubscriptionId => {}
 				Extra::PackedPair => env.push(EnvEvent::Raw {
 					after: 2,
 					text: format!(r#"[{{"jsonrpc":"2.0","id":{},"result":"packed0"}},{{"jsonrpc":"2.0","id":{},"result":"packed1"}}]"#, idtxt(0), idtxt(1)),
@@ -104,7 +107,7 @@ impl Scenario for MatchScenario {
 		if self.lib_points { mask_lib } else { mask_nolib }
 	}
 	fn setup(&self) -> CliState {
-		clim::setup(&CliScenarioCfg { rx_split: self.rx_split_ping_ms.is_some(), ping_ms: self.rx_split_ping_ms, warmup: self.warmup, id_kind: self.id_kind, ops: self.ops.clone(), env: self.env(), fail_send_at: None, tx_points: self.tx_points, buffer_cap: 4, late_after: 0 })
+		clim::setup(&CliScenarioCfg { rx_split: self.rx_split_ping_ms.is_some(), ping_ms: self.rx_split_ping_ms, warmup: self.warmup, id_kind: self.id_kind, ops: self.ops.clone(), env: self.env(), fail_send_at: None, tx_points: self.tx_points, buffer_cap: 4, late_after: if self.ops.contains(&FeOp::LateSubscribe) { 1 } else { 0 } })
 	}
 	fn judge(&self, st: CliState, _trace: &[String], panics: &[String], status: Status) -> Verdict {
 		let mut v = Vec::new();
@@ -136,7 +139,7 @@ impl Scenario for MatchScenario {
 			let k = clim::wire_index_of(&sent, op, i);
 			let delivered: Vec<(usize, String)> = match k {
 				Some(k) => {
-					let okt = clim::answer_for(&sent[k], k, &AnswerKind::Ok);
+					let okt = clim::answer_for(&sent[k], k, if self.extras.contains(&Extra::ConstSubscriptionId) { &AnswerKind::OkConstSub } else { &AnswerKind::Ok });
 					let ert = clim::answer_for(&sent[k], k, &AnswerKind::Err);
 					// a batch reply may also arrive at the end of a longer array (behind notifications)
 					let tail = if okt.starts_with('[') { format!(",{}", &okt[1..]) } else { "\u{0}".to_string() };
@@ -172,7 +175,8 @@ impl Scenario for MatchScenario {
 					};
 					let expected = match op {
 						FeOp::Call | FeOp::LateCall | FeOp::AbandonCall => format!("\"r{k}\""),
-						FeOp::Subscribe | FeOp::SubscribeDrop | FeOp::SubscribeHold => format!("Subscription(Str(\"S{k}\"))"),
+						FeOp::Subscribe | FeOp::SubscribeDrop | FeOp::SubscribeHold | FeOp::LateSubscribe if self.extras.contains(&Extra::ConstSubscriptionId) => "Subscription(Str(\"SX\"))".to_string(),
+						FeOp::Subscribe | FeOp::SubscribeDrop | FeOp::SubscribeHold | FeOp::LateSubscribe => format!("Subscription(Str(\"S{k}\"))"),
 						FeOp::Batch(n) | FeOp::LateBatch(n) => format!("[{}]", (0..*n).map(|j| format!("\"r{k}.{j}\"")).collect::<Vec<_>>().join(",")),
 						FeOp::Notif | FeOp::RegisterNotif => "sent".into(),
 					};
@@ -293,7 +297,14 @@ pub fn scenarios(thorough: bool) -> Vec<MatchScenario> {
 			}
 		}
 	}
-	// (e) a batch reply packed into one array behind notifications that overflow an unread subscription
+	// (f) a server that reuses subscription ids: subscribe, drop (the unsubscribe goes out), subscribe again; the new
+	//     subscribe is answered with the old id before or after the unsubscribe is acknowledged
+	for id_kind in [IdKind::Number, IdKind::String] {
+		// wire: 0 subscribe, 1 unsubscribe, 2 second subscribe; answers to all three, in every order the schedule allows
+		out.push(MatchScenario { id_kind, ops: vec![FeOp::SubscribeDrop, FeOp::LateSubscribe], answers: vec![Ans::Ok, Ans::Ok, Ans::Ok], extras: vec![Extra::ConstSubscriptionId], lib_points: false, tx_points: false, rx_split_ping_ms: None, warmup: 0 });
+		out.push(MatchScenario { id_kind, ops: vec![FeOp::SubscribeDrop, FeOp::LateSubscribe], answers: vec![Ans::Ok, Ans::Omit, Ans::Ok], extras: vec![Extra::ConstSubscriptionId], lib_points: false, tx_points: false, rx_split_ping_ms: None, warmup: 0 });
+	}
+	// (f) a server that reuses a subscription id for a new subscribe while the unsubscribe of the old one is unacknowledged, (e) a batch reply packed into one array behind notifications that overflow an unread subscription
 	for id_kind in [IdKind::Number, IdKind::String] {
 		for n in if thorough { vec![1usize, 2, 3] } else { vec![2] } {
 			out.push(MatchScenario { id_kind, ops: vec![FeOp::SubscribeHold, FeOp::Batch(n)], answers: vec![Ans::Ok, Ans::Ok], extras: vec![Extra::NotifsThenBatchInOneArray], lib_points: false, tx_points: false, rx_split_ping_ms: None, warmup: 0 });
@@ -314,7 +325,7 @@ pub fn scenarios(thorough: bool) -> Vec<MatchScenario> {
 pub fn check(rep: &Reporter) {
 	let thorough = rep.tier.thorough();
 	rep.set_rule(
-		"front-end histories of 2–3 concurrent operations out of {request, subscribe, batch of 2, notification} × answer pattern per wire message {ok, error object, omitted, delivered twice} × extra server messages {none, method + unknown-subscription notifications, response with a never-sent id, array packing two single responses} × id kind {number, string}; every front-end start and every delivery is a scheduling point, so all permutations of answers and all interleavings with late-starting calls are schedules of the DFS; complete tree when ≤ cap executions, else all schedules with ≤ K deviations. plus (c) a transport whose receive() is not cancellation safe (one more await after taking the message) while the read task's inactivity timer ticks every 1–3 virtual ms, and (e) a batch reply packed into one array behind notifications overflowing an unread subscription, and (d) batches whose ids start at 8/9 (thorough 7–10, 98, 99) after a warm-up, both id kinds. Oracle: the value each future returns is the payload of the delivered message whose id equals the id found in that call's own wire bytes.",
+		"front-end histories of 2–3 concurrent operations out of {request, subscribe, batch of 2, notification} × answer pattern per wire message {ok, error object, omitted, delivered twice} × extra server messages {none, method + unknown-subscription notifications, response with a never-sent id, array packing two single responses} × id kind {number, string}; every front-end start and every delivery is a scheduling point, so all permutations of answers and all interleavings with late-starting calls are schedules of the DFS; complete tree when ≤ cap executions, else all schedules with ≤ K deviations. plus (c) a transport whose receive() is not cancellation safe (one more await after taking the message) while the read task's inactivity timer ticks every 1–3 virtual ms, and (f) a server that reuses a subscription id for a new subscribe while the unsubscribe of the old one is unacknowledged, (e) a batch reply packed into one array behind notifications overflowing an unread subscription, and (d) batches whose ids start at 8/9 (thorough 7–10, 98, 99) after a warm-up, both id kinds. Oracle: the value each future returns is the payload of the delivered message whose id equals the id found in that call's own wire bytes.",
 	);
 	rep.assume("answers are tagged with the index of the wire message they answer, so 'own response' is decidable from bytes alone");
 	let scen = scenarios(thorough);
